@@ -175,6 +175,15 @@ func (x *Exec) assumeTypeB(st *State, v *Term, t types.Type, bound *Term) {
 			x.assumeFact(st, Implies(Neq(v, IntLit(0)), inv))
 		}
 	}
+	// a struct value of a named type with a declared invariant (period.Quarter{date})
+	if _, isStruct := t.Underlying().(*types.Struct); isStruct {
+		if _, isNamed := t.(*types.Named); isNamed && !isCtor(v) {
+			if inv := x.typeInv(st, &Val{T: v, Typ: t}); inv != True {
+				x.trusted["A-INV"] = true
+				x.assumeFact(st, inv)
+			}
+		}
+	}
 }
 
 // bnd returns the allocation bound known for the references inside v (the program point that supplied v).
@@ -1341,7 +1350,13 @@ func (x *Exec) binopVals(st *State, op token.Token, a, b *Val, rt types.Type, po
 		}
 		return &Val{T: x.bitOr(st, a.T, b.T), Typ: rt}
 	case token.SHL:
-		return &Val{T: x.shl(st, a.T, b.T), Typ: rt}
+		r := x.shl(st, a.T, b.T)
+		if _, hi, ok := intRange(rt); ok && strings.HasPrefix(hi, "4294967295") {
+			if _, lit := r.intVal(); !lit && r != a.T {
+				r = EMod(r, IntLit(1<<32)) // uint32 shifts drop the high bits
+			}
+		}
+		return &Val{T: r, Typ: rt}
 	case token.SHR:
 		return &Val{T: UF("bit.shr", SInt, a.T, b.T), Typ: rt}
 	case token.XOR, token.AND_NOT:
@@ -1564,10 +1579,16 @@ func (x *Exec) convert(fr *Frame, st *State, in *ssa.Convert) *Val {
 		}
 		return &Val{T: v.T, Typ: in.Type()}
 	case fIsB && tIsB && fb.Info()&types.IsInteger != 0 && tb.Info()&types.IsFloat != 0:
+		if k, ok := v.T.intVal(); ok && k > -(1<<52) && k < 1<<52 {
+			return &Val{T: realLit(float64(k)), Typ: in.Type()} // exactly representable
+		}
 		return &Val{T: TS.mk("to_real", "", mkSort("Real"), v.T), Typ: in.Type()}
 	case fIsB && tIsB && fb.Info()&types.IsFloat != 0 && tb.Info()&types.IsInteger != 0:
 		// truncation toward zero
 		r := v.T
+		if f, ok := realLitVal[r.id]; ok && f > -(1<<52) && f < 1<<52 {
+			return &Val{T: IntLit(int64(f)), Typ: in.Type()}
+		}
 		fl := TS.mk("to_int", "", SInt, r)
 		negfl := Neg(TS.mk("to_int", "", SInt, TS.mk("-", "", mkSort("Real"), r)))
 		isNeg := TS.mk("<", "", SBool, r, TS.mk("const", "0.0", mkSort("Real")))
